@@ -470,6 +470,6 @@ func TestC01_GroupChanges(t *testing.T) {
 		ID: "C01", Name: "group-changes", Quick: 320, Thor: 6000,
 		Gen:  genRelCase("C01"),
 		Run:  func(c RelCase) Outcome { return runRelayer(c, "C01") },
-		Rule: "relayer-world histories of 6-40 blocks (add/remove requests incl. removal of the proposer together with leading voters, registrations, acceptances, elections, restarts from the exported state) in which half of the transactions are votes of the C01 classes resolved against the group as it is then; the reference predicate additionally requires that proposer and marked voters are pairwise distinct members; non-trivial = a vote was decided after at least one election; evaluations count blocks",
+		Rule: "relayer-world histories of 6-40 blocks (add/remove requests incl. removal of the proposer together with leading voters, registrations, acceptances, elections, restarts from the exported state) in which half of the transactions are votes of the C01 classes resolved against the group as it is then; the reference predicate additionally requires that proposer and marked voters are pairwise distinct members, and a registration with a forged element (in particular without a valid proof of possession of the vote key, on which the soundness of the aggregate check rests) must be refused; non-trivial = a vote was decided after at least one election; evaluations count blocks",
 	})
 }
